@@ -517,10 +517,20 @@ def source_fingerprint():
 
 TIERS = {
     # prop: tier: (plans, batch, replicas k, recycle-after-batches, wall budget seconds)
-    "C16": {"quick": (16000, 100, 2, 10, 240), "thorough": (160000, 200, 2, 12, 1500)},
-    "C15": {"quick": (1600, 10, 2, 10, 300), "thorough": (40000, 20, 3, 8, 2400)},
-    "C13": {"quick": (12000, 50, 2, 10, 300), "thorough": (200000, 100, 2, 12, 2400)},
+    "C16": {"quick": (16000, 100, 2, 10, 240), "thorough": (300000, 200, 2, 12, 1500)},
+    "C15": {"quick": (4800, 10, 2, 10, 300), "thorough": (90000, 20, 3, 8, 2700)},
+    "C13": {"quick": (12000, 50, 2, 10, 300), "thorough": (100000, 100, 2, 12, 2700)},
 }
+
+
+def extra_ranges(prop, tier):
+    """Plan-index ranges run in addition to 0..plans-1 (systematic sweeps that only the
+    thorough tier can afford)."""
+    if prop == "C13" and tier == "thorough":
+        from . import plan_c13
+
+        return [(plan_c13.SEQ_SWEEP_BASE, plan_c13.SEQ_SWEEP_BASE + plan_c13.N_SEQ_PLANS)]
+    return []
 
 
 # A cross-interpreter divergence of the comparable log is a violation only where the property
@@ -533,6 +543,11 @@ class Run:
         self.prop, self.tier, self.seed = prop, tier, seed
         n, batch, k, recycle, budget = TIERS[prop][tier]
         self.n_plans = int(os.environ.get("VERIF_RUNS", plans or n))
+        self.indices = list(range(self.n_plans))
+        if "VERIF_RUNS" not in os.environ:
+            for lo, hi in extra_ranges(prop, tier):
+                self.indices.extend(range(lo, hi))
+        self.n_plans = len(self.indices)
         self.batch = batch
         self.k = k
         self.recycle = recycle
@@ -551,7 +566,7 @@ class Run:
             for r in range(self.k):
                 if (b * self.k + r) % self.W == slot:
                     lo = b * self.batch
-                    yield b, r, list(range(lo, min(self.n_plans, lo + self.batch)))
+                    yield b, r, self.indices[lo:lo + self.batch]
 
     def slot_thread(self, slot):
         worker = None
